@@ -279,6 +279,23 @@ def _judge_rejected_batch(rng, tag):
     return None
 
 
+def _judge_ridge_reassigned(rng, tag):
+    """lambda is the node's `ridge` at the time the system is solved: partial_fit; node.ridge = new; partial_fit; fit() must satisfy the
+    normal equations for the NEW lambda on all accepted rows, i.e. equal a one-shot fit with that lambda (added after a seeded change)."""
+    rpy()
+    from reservoirpy.nodes import Ridge
+    d, o = rng.randint(1, 3), rng.randint(1, 2)
+    b1 = (farr(rand_rows(rng, 5, d), d), farr(rand_rows(rng, 5, o), o)); b2 = (farr(rand_rows(rng, 4, d), d), farr(rand_rows(rng, 4, o), o))
+    lam0, lam1 = float(Fraction(rng.choice(["1/4", "1/2", "1"]))), float(Fraction(rng.choice(["2", "4", "8"])))
+    a = Ridge(ridge=lam0, name=uname("rr_a")); b = Ridge(ridge=lam1, name=uname("rr_b"))
+    a.partial_fit(*b1); a.ridge = lam1; a.partial_fit(*b2); a.fit()
+    b.fit([b1[0], b2[0]], [b1[1], b2[1]])
+    if not np.allclose(a.Wout, b.Wout, rtol=1e-10, atol=1e-12) or not np.allclose(a.bias, b.bias, rtol=1e-10, atol=1e-12):
+        return _viol("ridge:lambda-not-read-at-solve-time", "ridge reassigned between partial fits: the fit does not satisfy the normal equations for the current lambda",
+                     {"tag": tag, "kind": "ridge-reassigned", "lam0": lam0, "lam1": lam1}, np.asarray(b.Wout).tolist(), np.asarray(a.Wout).tolist())
+    return None
+
+
 def oracle(ctx, scale=1):
     rng = ctx.rng("oracle")
     cases = gen_cases(rng, ctx.n(100, 1200) * scale)
@@ -288,7 +305,7 @@ def oracle(ctx, scale=1):
         if v:
             out.append(v)
     for i in range(ctx.n(10, 100)):
-        v = _judge_rejected_batch(rng, "%d_%d" % (ctx.seed, i))
+        v = _judge_rejected_batch(rng, "%d_%d" % (ctx.seed, i)) or _judge_ridge_reassigned(rng, "%d_%d" % (ctx.seed, i))
         if v:
             out.append(v)
     return {"evaluations": len(cases), "violations": out,
@@ -297,6 +314,10 @@ def oracle(ctx, scale=1):
 
 
 def replay(payload):
+    if payload.get("scenario", {}).get("kind") == "ridge-reassigned":
+        import random
+        vs = [v for v in (_judge_ridge_reassigned(random.Random(i), "rq%d" % i) for i in range(20)) if v]
+        return {"violates": bool(vs), "detail": vs[:1]}
     if payload.get("scenario", {}).get("kind") == "rejected-batch":
         import random
         vs = [_judge_rejected_batch(random.Random(i), "rp%d" % i) for i in range(20)]
